@@ -288,24 +288,12 @@ func checkFeeds(w *engine.World, b *base, ctx sdk.Context, events sdk.Events, ha
 		}
 		a, v, med := expectedOf(counted, now, f.iv, b.q, b.bonded)
 		fc := feedCheck{Step: step, Feed: f.sig, A: a, V: v}
-		excludedHolds := false
-		for i := 0; i < 3; i++ {
-			if held[i].Status != stAbsent && !(b.sc.Bonded[i] && !b.sc.Inactive[i]) {
-				excludedHolds = true
-			}
-		}
-		alts := []altReading{
-			{Name: "freshness:boundary-price-dropped", Applicable: a.boundarySeen, Entries: counted, Now: now, Interval: f.iv - 1, Q: b.q, Bonded: b.bonded},
-			{Name: "freshness:stale-price-counted", Applicable: a.staleSeen, Entries: counted, Now: now, Interval: 1 << 40, Q: b.q, Bonded: b.bonded},
-			{Name: "validator-set:non-bonded-or-inactive-validator-counted", Applicable: excludedHolds, Entries: all, Now: now, Interval: f.iv, Q: b.q, Bonded: b.bonded},
-		}
 		if halt != "" {
 			fc.O = observed{Status: "ERROR", Err: halt}
 			if i := strings.Index(fc.O.Err, "\n"); i > 0 {
 				fc.O.Err = fc.O.Err[:i]
 			}
 			fp, detail := judge(a, v, med, fc.O)
-			fp = refine(fp, fc.O, alts)
 			if fp == "price-error:unexpected" {
 				// the halt may be caused by the other feed; only blame this feed if no feed explains it
 				fc.FP, fc.Detail = "", ""
@@ -319,9 +307,7 @@ func checkFeeds(w *engine.World, b *base, ctx sdk.Context, events sdk.Events, ha
 		p := k.GetPrice(ctx, f.sig)
 		fc.O = observed{Status: priceStatusName(p.Status), Price: p.Price}
 		fc.FP, fc.Detail = judge(a, v, med, fc.O)
-		if fc.FP != "" {
-			fc.FP = refine(fc.FP, fc.O, alts)
-		} else {
+		if fc.FP == "" {
 			// the update_price event must carry what was stored
 			n := 0
 			for _, e := range engine.EventsOfType(events, feedstypes.EventTypeUpdatePrice) {
